@@ -23,7 +23,7 @@ Definition ex_reg (n : string) (addr : Z) (acc : access) (rep : option repeat) (
 Definition dev (rt : integer) (objs : list object) : device := {| d_config := ex_cfg rt; d_objects := objs |}.
 
 (* Full statement — "every accepted definition satisfies wf_output" — is FALSE of the faithful model.
-   Five refutations, each a genuine defect reproduced against rustc by the check: *)
+   Refutations, each a genuine defect reproduced against rustc by the check: *)
 
 (* D7: a write-only field — the Debug impl calls the getter that was not generated (E0599). *)
 Theorem C19_wo_field_refuted :
@@ -72,6 +72,18 @@ Theorem C19_signed_discriminant_refuted :
                                     {| v_cfg := None; v_name := "Vb"; v_value := EVSpec 255 |}] |} true) |}]]) = false.
 Proof. vm_compute. reflexivity. Qed.
 
+(* D20: an inline enum named like a block (or like the driver struct).  names_unique keeps object names and
+   generated-enum names in separate sets — and C14 demands exactly that it accepts — but the block struct, the
+   driver struct and the generated enums are all emitted at the top level of the output: E0428. *)
+Theorem C19_enum_named_like_block_refuted :
+  let en name := ConvEnum {| e_cfg := None; e_name := name; e_style := None;
+                             e_variants := [{| v_cfg := None; v_name := "Va"; v_value := EVUnspec |};
+                                            {| v_cfg := None; v_name := "Vb"; v_value := EVDefault |}] |} false in
+  wf_output "Dev" (dev IU8 [OBlock None "Ba" 0 None [ex_reg "Ra" 0 RW None [ex_field "fa" RW (Some (en "Ba"))]]]) = false /\
+  wf_output "Dev" (dev IU8 [ex_reg "Ra" 0 RW None [ex_field "fa" RW (Some (en "Dev"))]]) = false /\
+  wf_output "Dev" (dev IU8 [OBlock None "Ba" 0 None [ex_reg "Ra" 0 RW None [ex_field "fa" RW (Some (en "En"))]]]) = true.
+Proof. vm_compute. repeat split; reflexivity. Qed.
+
 (* Strongest true statement: outside those classes — no block refs, every field readable, enum numbers pairwise distinct and
    representable in the enum's repr type (non-negative below 2^carrier on uint/bool fields, within the signed range on int fields) — and with type names unique per namespace (driver name, blocks and
    generated enums share the top level; field sets live in `mod field_sets`), the obligations hold; in
@@ -103,5 +115,6 @@ Print Assumptions C19_block_ref_refuted.
 Print Assumptions C19_duplicate_discriminant_refuted.
 Print Assumptions C19_negative_discriminant_refuted.
 Print Assumptions C19_signed_discriminant_refuted.
+Print Assumptions C19_enum_named_like_block_refuted.
 Print Assumptions C19_wf_output_partial.
 Print Assumptions C19_block_structs_are_declared_blocks.
